@@ -5,8 +5,18 @@
     unstable sort.Slice over references the case carries the order the sort
     chose ([perm], source indices); the model checks that it is an admissible
     order (a permutation, sorted w.r.t. the model's comparator) and then
-    compares the raw result lists. *)
-From CSS Require Import Lib.Base Lib.Cases Model.Ranges Model.Refs.
+    compares the raw result lists.
+
+    [CProg] is a PROGRAM: harness-made memory (range arrays and arrays of
+    Reference structs over their full capacity, variables = slices over them) and
+    a sequence of operations of the reference algebra, each with what the
+    implementation handed back and with everything that was different in memory
+    afterwards (full contents of the harness-made arrays and the value of every
+    variable, earlier results included).  The slice-level model Model/RefsHeap.v
+    is run along; after every operation the whole observable memory must agree,
+    and the result must be what the value-level model Model/Refs.v computes from
+    the values before the operation. *)
+From CSS Require Import Lib.Base Lib.Cases Model.Ranges Model.Refs Model.RefsHeap.
 
 (** projection of a reference: artifact identity, mapper, ranges *)
 Definition robs : Type := (Z * mapper * list range)%type.
@@ -14,6 +24,17 @@ Definition robs : Type := (Z * mapper * list range)%type.
 Definition A := mkArt.
 Definition R := mkRef.
 Definition r_ := mkR.
+Definition H := mkHdr.
+Definition S_ := mkSl.
+
+(** observable memory: the structs of an array / of a References variable, the
+    ranges of an array / of a Ranges variable *)
+Inductive pitem := IRefs (l : list robs) | IRngs (l : list range).
+(** what an operation of a program handed back (beside a new variable) *)
+Inductive pres := XNone | XErr (e : bool) | XBytes (o : obs (list Z)) | XPanic.
+(** operation, what it returned, the observable items that differ from the state
+    before (index, new content; an index one past the end adds an item) *)
+Definition pstep : Type := (op * pres * list (nat * pitem))%type.
 
 Inductive case : Type :=
 | CRMerge (l out : list range)                                   (* Ranges.SortAndMerge *)
@@ -26,7 +47,8 @@ Inductive case : Type :=
 | CRefsBytes (s : list ref) (res : obs (list Z))                 (* References.RawBytes *)
 | CResolve (s : list ref) (out : list robs) (err : bool)         (* References.Resolve *)
 | CByArt (s : list ref) (a : art) (out : list robs)              (* References.BySystemArtifact *)
-| CRanges (s : list ref) (out : list range).                     (* References.Ranges *)
+| CRanges (s : list ref) (out : list range)                      (* References.Ranges *)
+| CProg (rarrs : list (list range)) (farrs : list (list hdr)) (env : list value) (steps : list pstep).
 
 Definition ranges_eqb := list_eqb range_eqb.
 Definition robs_eqb (a b : robs) : bool :=
@@ -38,6 +60,116 @@ Definition map_out {A B} (f : A -> B) (o : outcome A) : outcome B := bind o (fun
 
 Definition rd_eqb (a b : Z * list Z * Z) : bool :=
   let '(n, p, e) := a in let '(n', p', e') := b in (n =? n') && zlist_eqb p p' && (e =? e').
+
+(** *** programs *)
+
+Definition pitem_eqb (a b : pitem) : bool :=
+  match a, b with
+  | IRefs x, IRefs y => robs_list_eqb x y
+  | IRngs x, IRngs y => ranges_eqb x y
+  | _, _ => false
+  end.
+
+Definition item_of (m : mem) (v : value) : pitem :=
+  match v with
+  | VRefs s => IRefs (map proj (lval m s))
+  | VRngs s => IRngs (rd (m_r m) s)
+  end.
+
+(** the first [nf] arrays of structs and the first [nr] range arrays are the
+    harness-made ones: observed over their full length; then the variables *)
+Definition observe (nr nf : nat) (st : state) : list pitem :=
+  let m := st_m st in
+  map (fun a => IRefs (map (fun x => proj (hval (m_r m) x)) a)) (firstn nf (m_f m))
+  ++ map IRngs (firstn nr (m_r m))
+  ++ map (item_of m) (st_env st).
+
+Fixpoint apply_delta (prev : list pitem) (d : list (nat * pitem)) : list pitem :=
+  match d with
+  | [] => prev
+  | (i, it) :: t => apply_delta (if (i <? length prev)%nat then set_nth i it prev else prev ++ [it]) t
+  end.
+
+Definition pres_match (x : pres) (r : res) : bool :=
+  match x, r with
+  | XNone, RNone => true
+  | XErr e, RErr e' => Bool.eqb e e'
+  | XBytes o, RBytes o' => obs_match zlist_eqb o o'
+  | _, _ => false
+  end.
+
+(** value-level [References.SortAndMerge] with the stable order *)
+Definition refs_sm_stable (s : list ref) : outcome (list ref) :=
+  match s with
+  | [] => Ok []
+  | _ => if has_conflict s then Panic else Ok (refs_sm_sorted (sort_refs s))
+  end.
+
+Definition refs_eqb (a b : list ref) : bool := robs_list_eqb (map proj a) (map proj b).
+Definition last_refs (st : state) : list ref :=
+  match last (st_env st) (VRngs (mkSl 0 0 0)) with VRefs s => lval (st_m st) s | _ => [] end.
+Definition var_refs (st : state) (v : nat) : list ref :=
+  match get_refs st v with Some s => lval (st_m st) s | None => [] end.
+
+(** the slice-level step against the value-level model: what the operation
+    yields is the value-level function of the values before it *)
+Definition vcheck (st : state) (o : op) (st' : state) (r : res) : bool :=
+  match o with
+  | OCopy v => refs_eqb (last_refs st') (var_refs st v)
+  | OBy v a => refs_eqb (last_refs st') (by_artifact (var_refs st v) a)
+  | ORanges v =>
+      match last (st_env st') (VRefs (mkSl 0 0 0)) with
+      | VRngs s => ranges_eqb (rd (m_r (st_m st')) s) (refs_ranges (var_refs st v))
+      | _ => false
+      end
+  | OExclude v w =>
+      match var_refs st v with
+      | [] => refs_eqb (last_refs st') []
+      | s =>
+          match bind (refs_sm_stable s) (fun s0 => bind (refs_sm_stable (var_refs st w)) (fun s1 => excl_walk s0 s1)) with
+          | Ok out => refs_eqb (last_refs st') out
+          | _ => false
+          end
+      end
+  | OSortMerge v =>
+      match refs_sm_stable (var_refs st v) with
+      | Ok out => refs_eqb (var_refs st' v) out
+      | _ => false
+      end
+  | OResolve v =>
+      let '(l, e) := refs_resolve (var_refs st v) in
+      refs_eqb (var_refs st' v) l && (match r with RErr e' => Bool.eqb e e' | _ => false end)
+  | ORawBytes v =>
+      match r with
+      | RBytes (Ok b) => match refs_rawbytes (var_refs st v) with Ok b' => zlist_eqb b b' | _ => false end
+      | RBytes Panic => match refs_rawbytes (var_refs st v) with Panic => true | _ => false end
+      | _ => false
+      end
+  | ORefBytes v i =>
+      match nth_error (var_refs st v) i, r with
+      | Some x, RBytes (Ok b) => match ref_rawbytes x with Ok b' => zlist_eqb b b' | _ => false end
+      | Some x, RBytes Panic => match ref_rawbytes x with Panic => true | _ => false end
+      | _, _ => false
+      end
+  | ORngSM v =>
+      match get_rngs st v, get_rngs st' v with
+      | Some s, Some s' => ranges_eqb (rd (m_r (st_m st')) s') (ranges_sm (rd (m_r (st_m st)) s))
+      | _, _ => false
+      end
+  end.
+
+Fixpoint prog_check (nr nf : nat) (st : state) (prev : list pitem) (steps : list pstep) : bool :=
+  match steps with
+  | [] => true
+  | (o, x, d) :: t =>
+      match step st o with
+      | None => false
+      | Some (st', r) =>
+          let now := apply_delta prev d in
+          pres_match x r && list_eqb pitem_eqb now (observe nr nf st') && vcheck st o st' r
+          && prog_check nr nf st' now t
+      end
+  end.
 
 Definition check (c : case) : bool :=
   match c with
@@ -56,6 +188,9 @@ Definition check (c : case) : bool :=
       let '(s', e) := refs_resolve s in robs_list_eqb out (map proj s') && Bool.eqb err e
   | CByArt s a out => robs_list_eqb out (map proj (by_artifact s a))
   | CRanges s out => ranges_eqb out (refs_ranges s)
+  | CProg rarrs farrs env steps =>
+      let st := mkSt (mkMem rarrs farrs) env in
+      prog_check (length rarrs) (length farrs) st (observe (length rarrs) (length farrs) st) steps
   end.
 
 Definition mismatches := mismatches_by check.
